@@ -176,19 +176,27 @@ def with_vals(tool: dict, vals: list) -> dict:
 def runtime_view(obs: dict, tool: dict, others=()) -> None:
     """Replace the job's designated directories in what the probe saw by tags (they differ from run to run):
     obs["rt"] = {"HOME": tag, "TMPDIR": tag}, obs["env"] values that are one of the directories -> tag.
-    Output directory of the job := the directory its process was started in; temporary directory := what
-    $(runtime.tmpdir) evaluates to when the tool publishes it (EnvVarRequirement of kind "rt"), else $TMPDIR.
-    `others`: the raw observations of the other jobs of the same step."""
+    Output directory of the job := the directory its process was started in.  Temporary directory := $TMPDIR; when
+    the tool also publishes $(runtime.tmpdir) (EnvVarRequirement of kind "rt") and the two differ, the one that is
+    NOT also a directory of another job of the step is taken as the job's own and the other one is blamed (if
+    neither is, both are reported).  `others`: the raw observations of the other jobs of the same step."""
     if not obs.get("ok"):
         return
     tvar = next((e["name"] for e in tool["env"] if e["kind"] == "rt" and e["ref"] == "tmpdir"), None)
+    live = [o for o in others if o.get("ok")]
 
-    def dirs(o):
+    def published(o):
         env = o.get("env_raw", o.get("env")) or {}
-        return o.get("cwd"), (env.get(tvar) if tvar and env.get(tvar) else o.get("TMPDIR"))
+        return env.get(tvar) if tvar else None
 
-    out, tmp = dirs(obs)
-    oth = [dirs(o) for o in others if o.get("ok")]
+    def own_tmp(o, rest):
+        t, v = o.get("TMPDIR"), published(o)
+        if v is not None and v != t and any(t == x.get("TMPDIR") for x in rest):
+            return v            # $TMPDIR is (also) another job's: believe $(runtime.tmpdir)
+        return t
+
+    out, tmp = obs.get("cwd"), own_tmp(obs, live)
+    oth = [(o.get("cwd"), own_tmp(o, [x for x in live if x is not o] + [obs])) for o in live]
 
     def tag(v):
         if v is None:
@@ -206,11 +214,15 @@ def runtime_view(obs: dict, tool: dict, others=()) -> None:
     obs["env_raw"] = dict(obs.get("env") or {})
     obs["env"] = {k: (tag(v) if os.path.isabs(v) else v) for k, v in obs["env_raw"].items()}
     t = tag(obs.get("TMPDIR"))
-    if t == "<TMPDIR>" and not tvar and any(obs.get("TMPDIR") == o.get("TMPDIR") for o in others if o.get("ok")):
-        # (without $(runtime.tmpdir) nothing tells which of the jobs the directory belongs to)
-        t = "<TMPDIR shared with another job>"
-    elif t == "<TMPDIR>" and not obs.get("tmp_isdir"):
-        t = "<TMPDIR: not a directory>"
+    if t == "<TMPDIR>":
+        v = published(obs)
+        if v is None and any(obs.get("TMPDIR") == o.get("TMPDIR") for o in live):
+            # (without $(runtime.tmpdir) nothing tells which of the jobs the directory belongs to)
+            t = "<TMPDIR shared with another job>"
+        elif not obs.get("tmp_isdir"):
+            t = "<TMPDIR: not a directory>"
+        elif v is not None and tag(v) == v:      # differs from $(runtime.tmpdir), which is nobody's directory either
+            t = "<TMPDIR differs from runtime.tmpdir>"
     obs["rt"] = {"HOME": tag(obs.get("HOME")), "TMPDIR": t}
 
 
